@@ -13,7 +13,7 @@ import time
 import billiard
 from billiard import pool as bp
 
-from billiard.exceptions import WorkerLostError
+from billiard.exceptions import TimeLimitExceeded, WorkerLostError
 
 from harness import targets
 
@@ -60,7 +60,7 @@ def _bounded(fn, bound):
 
 def close_join(sc):
     threads, procs, mt, mix, when = sc['threads'], sc['procs'], sc['quota'], sc['mix'], sc['when']
-    pool = bp.Pool(procs, maxtasksperchild=mt or None, threads=threads)
+    pool = bp.Pool(procs, maxtasksperchild=mt or None, threads=threads, timeout=sc.get('limit') or None)
     pids0 = [w.pid for w in pool._pool]
     seen = set(pids0)
     pool.on_process_up = lambda w: seen.add(w.pid)
@@ -72,6 +72,10 @@ def close_join(sc):
     if 'map' in mix and threads:
         handles.append(('map', pool.map_async(targets.uneven, list(range(n)), 1),
                         [('ok', i) for i in range(n)]))
+    if 'overlimit' in mix:
+        # still running, over the pool's hard time limit, while close() / join() drain: limits stay in
+        # force (threads=False: finish_at_shutdown scans them), the job resolves as TimeLimitExceeded
+        handles.append(('overlimit', pool.apply_async(targets.slow, (777, 40)), 'timelimit'))
     if 'dying' in mix:
         # its worker dies under it shortly after close(): the job still resolves (as lost)
         handles.append(('dying', pool.apply_async(targets.exit_after, (0.4, 3), lost_worker_timeout=1.0),
@@ -100,7 +104,8 @@ def close_join(sc):
                     wrong += 1
             except Exception as exc:      # noqa
                 exc = getattr(exc, 'exc', exc)      # pool-made failures arrive in ExceptionWithTraceback
-                if not (e == 'lost' and isinstance(exc, WorkerLostError)):
+                if not ((e == 'lost' and isinstance(exc, WorkerLostError)) or
+                        (e == 'timelimit' and isinstance(exc, TimeLimitExceeded))):
                     wrong += 1
     if it is not None:
         got = []
